@@ -5,7 +5,9 @@ Go sources transliterated here:
 
 * `sql/parser.go`               `MySqlSchemaFormatter`: `QuoteIdentifier`, `GenerateCreateTableColumnDefinition`,
   `GenerateCreateTablePrimaryKeyDefinition`, `GenerateCreateTableIndexDefinition` (the index
-  comment is printed *without* escaping), `GenerateCreateTableStatement`,
+  comment goes through `EscapeSpecialCharactersInComment` like every other comment since the
+  `fix:` commit; the pre-fix printer, which put it between quotes as it was, is kept as
+  `showKeyPreFix` / `showTablePreFix` for the witness theorem only), `GenerateCreateTableStatement`,
   `EscapeSpecialCharactersInComment` (six consecutive `strings.ReplaceAll`)
 * `sql/rowexec/show_iters.go`   `produceCreateTableStatement` (order of the parts), `convertColumnDefaultToString`
 
@@ -76,7 +78,7 @@ def lexStr : Str → Option (Str × Str)
   | '\'' :: rest => lexStrBody rest []
   | _ => none
 
-/-- Characters a literal printed *without* escaping does not survive. -/
+/-- Characters a literal printed *without* escaping does not survive (the pre-fix index comments). -/
 def rawSafe (s : Str) : Bool := s.all fun c => c != '\'' && c != '\\'
 
 -- ---------------------------------------------------------------------------------------------
@@ -163,13 +165,20 @@ def showCol (c : Col) : Str :=
 /-- Go `GenerateCreateTablePrimaryKeyDefinition`. -/
 def showPk (pk : List Str) : Str := "  PRIMARY KEY (".toList ++ joinWith [','] (pk.map quoteIdent) ++ [')']
 
-/-- Go `GenerateCreateTableIndexDefinition`. `escaped = false` is the Go code: the comment is put
-between quotes as it is. -/
-def showKey (escaped : Bool) (k : Key) : Str :=
+/-- Go `GenerateCreateTableIndexDefinition` up to the comment. -/
+def showKeyHead (k : Key) : Str :=
   "  ".toList ++ (if k.unique then "UNIQUE ".toList else []) ++ "KEY ".toList ++ quoteIdent k.name ++
-    " (".toList ++ joinWith [','] (k.cols.map quoteIdent) ++ [')'] ++
-    (if k.comment.isEmpty then [] else
-      " COMMENT '".toList ++ (if escaped then escape k.comment else k.comment) ++ ['\''])
+    " (".toList ++ joinWith [','] (k.cols.map quoteIdent) ++ [')']
+
+/-- Go `GenerateCreateTableIndexDefinition`: the comment is escaped by
+`EscapeSpecialCharactersInComment` (repaired code). -/
+def showKey (k : Key) : Str :=
+  showKeyHead k ++ (if k.comment.isEmpty then [] else " COMMENT '".toList ++ escape k.comment ++ ['\''])
+
+/-- The same function before the `fix:` commit: the comment was put between quotes as it was.
+Not part of the Impl model any more; kept to state `fixed_index_comment_unescaped`. -/
+def showKeyPreFix (k : Key) : Str :=
+  showKeyHead k ++ (if k.comment.isEmpty then [] else " COMMENT '".toList ++ k.comment ++ ['\''])
 
 /-- Go string `<` on index names (bytes). -/
 def strLe : Str → Str → Bool
@@ -186,14 +195,17 @@ def sortKeys : List Key → List Key
   | [] => []
   | k :: ks => insertKey k (sortKeys ks)
 
-/-- Go `produceCreateTableStatement` + `GenerateCreateTableStatement`. -/
-def showTable (escaped : Bool) (t : Table) : Str :=
-  let parts := t.cols.map showCol ++ (if t.pk.isEmpty then [] else [showPk t.pk]) ++ (sortKeys t.keys).map (showKey escaped)
+/-- Go `produceCreateTableStatement` + `GenerateCreateTableStatement`, over a key printer. -/
+def showTableWith (key : Key → Str) (t : Table) : Str :=
+  let parts := t.cols.map showCol ++ (if t.pk.isEmpty then [] else [showPk t.pk]) ++ (sortKeys t.keys).map key
   "CREATE TABLE ".toList ++ quoteIdent t.name ++ " (\n".toList ++ joinWith [',', '\n'] parts ++
     "\n) ENGINE=InnoDB DEFAULT CHARSET=utf8mb4 COLLATE=utf8mb4_0900_bin".toList ++
     (if t.comment.isEmpty then [] else " COMMENT='".toList ++ escape t.comment ++ ['\''])
 
-/-- Region `index_comment_unescaped`: some index comment does not read back from its printed form. -/
-def indexCommentUnsafe (t : Table) : Bool := t.keys.any fun k => !rawSafe k.comment
+/-- The Impl model: the text of SHOW CREATE TABLE (repaired code). -/
+def showTable (t : Table) : Str := showTableWith showKey t
+
+/-- The text before the `fix:` commit (witness theorem only). -/
+def showTablePreFix (t : Table) : Str := showTableWith showKeyPreFix t
 
 end Gms.ShowCreate
